@@ -23,6 +23,10 @@ theorem assign_round_robin (n : Nat) (ops : List AOp) (a : Assign) (i : Nat) (ha
       intro p hp
       simp only [runOps] at hp
       exact ih _ 0 rfl p hp
+    | apply =>
+      intro p hp
+      simp only [runOps, assignApply, Bool.not_false, Bool.and_self, if_true] at hp
+      exact ih _ i (by simpa using ha) p hp
 
 theorem assign_in_range (orderTasks : Bool) (n : Nat) (hn : 0 < n) (a : Assign) (h : ∀ w ∈ a.lastCompleted, w < n) :
     (assign orderTasks n a).1 < n ∧ ∀ w ∈ (assign orderTasks n a).2.lastCompleted, w < n := by
